@@ -183,6 +183,12 @@ class C18:
                     return "merge is not associative"
             if s[slice(c["a"], c["b"])].s != c["s"][slice(c["a"], c["b"])]:
                 return "slice differs from list slice"
+            # every slice form, also open bounds and negative steps (a reversed sub-state that includes mode 0)
+            for x, y, st in ((None, None, -1), (c["a"], None, -1), (None, c["b"], -1), (c["a"], c["b"], -1), (None, None, -2),
+                             (c["b"], c["a"], -1), (None, None, 2), (c["a"], c["b"], 2), (None, -len(c["s"]) - 1, -1)):
+                got = s[slice(x, y, st)]
+                if not isinstance(got, lw.State) or got.s != c["s"][slice(x, y, st)]:
+                    return f"State[{x}:{y}:{st}] = {got.s if isinstance(got, lw.State) else got!r} differs from the list slice {c['s'][slice(x, y, st)]}"
             if s.n_photons != sum(c["s"]) or s.n_modes != len(c["s"]) or list(s) != c["s"]:
                 return "counts/iteration inconsistent"
             # immutability through the API
